@@ -130,11 +130,10 @@ package client
 //@   requires localAddr.Host != nil && remoteAddr.Host != nil && (len(remoteAddr.Host.IP) == 4 || len(remoteAddr.Host.IP) == 16)
 //@   requires c.Auth.Enabled ==> c.Auth.DRKeyFetcher != nil
 //@   requires c.Auth.opt != nil ==> len(c.Auth.opt.OptData) == 28
-// panic(errUnexpectedAddrType): the first site concerns the configured local address (declared refusal); the second the
-// remote address, which without NTS is the configured one (stated assumption below) but with NTS is whatever the
-// key-exchange server named - there the panic must be unreachable.
+// panic(errUnexpectedAddrType) remains only for the configured local address (declared refusal). The remote address is
+// the configured one without NTS but whatever the key-exchange server named with NTS: an address that is not an IP
+// address must end in an error there, not in a panic (D24).
 //@   maypanic errUnexpectedAddrType #0
-//@   callsite netip.AddrFromSlice 2 scope !c.Auth.NTSEnabled ==> len(remoteAddr.Host.IP) == 4 || len(remoteAddr.Host.IP) == 16
 //@   loop 0 invariant calls("ntp.ClockOffset") == 0
 //@   loop 0 invariant c.prev.cTxTime == before(c.prev.cTxTime) && c.prev.cRxTime == before(c.prev.cRxTime) && c.prev.sRxTime == before(c.prev.sRxTime)
 // Same clauses as for the IP client, over the packet as decoded (lastreadof(udpLayer).Payload is the NTP payload):
